@@ -1394,6 +1394,10 @@ class Executor:
           sym.to_val(a), sym.to_val(b))
     if isinstance(a, VPy) and isinstance(b, VPy):
       return z3.BoolVal(a.what == b.what and a.payload == b.payload)
+    if isinstance(a, VBool) and isinstance(b, VInt):
+      a = coerce(a, KInt)
+    if isinstance(a, VInt) and isinstance(b, VBool):
+      b = coerce(b, KInt)
     if isinstance(a, VTuple) and isinstance(b, VTuple):
       if len(a.items) != len(b.items):
         return z3.BoolVal(False)
